@@ -5,6 +5,9 @@ import Driver.C02
 import Driver.C20
 import Driver.C05
 import Driver.Tax
+import Driver.C04
+import Driver.C13
+import Driver.C12
 
 open Driver
 
@@ -14,7 +17,10 @@ def handlers : List (List String → Option String) := [
   Driver.C02.handle,
   Driver.C20.handle,
   Driver.C05.handle,
-  Driver.Tax.handle
+  Driver.Tax.handle,
+  Driver.C04.handle,
+  Driver.C13.handle,
+  Driver.C12.handle
 ]
 
 def dispatch (toks : List String) : String :=
